@@ -13,6 +13,7 @@ import Proofs.StepToks
 import Proofs.Commute
 import Proofs.CommuteMarkup
 import Proofs.CommuteSuccess
+import Proofs.CommuteSuccessR
 namespace PM.C17
 open PM
 
@@ -425,20 +426,24 @@ General statement (false, see `commute_needs_guard` below and the open finding C
     commute_succeeds_replace_full : t1 < f2 → S.apply (.replace f1 t1 s1 b1) d = .ok da →
         S.apply (.replace f2 t2 s2 b2) d = .ok db → the two rebased steps apply to `da` resp. `db`
 
-Proved under the decidable guard `insideLeft` (PM/CommuteGuard.lean): the left step happens entirely inside
-an element node `n` — its `replace_outer` descends into `n` — and the right step's range begins behind
-`n`, in a node both steps reach.  Then the left step rebuilds and re-validates nodes inside `n` only and
-keeps `n`'s markup, and the right step's replace never looks into `n`: the child list it validates has the
-same node types with either content of `n`.  No validity hypothesis and no schema guard are needed, and
-both orders yield the *same* document (no normal-form argument). -/
+Proved under the decidable guard `commuteGuard = insideLeft ∨ insideRight` (PM/CommuteGuard.lean): one of
+the two steps happens entirely inside an element node `n` — its `replace_outer` descends into `n` — and the
+other step's range lies behind `n` (resp. ends in front of `n`), in a node both steps reach.  Then the
+inner step rebuilds and re-validates nodes inside `n` only and keeps `n`'s markup, and the other step's
+replace never looks into `n`: the child list it validates has the same node types with either content of
+`n` (Proofs/CommuteSuccess.lean `replaceKids_prefix`, Proofs/CommuteSuccessR.lean `replaceKids_suffix`).
+No validity hypothesis and no schema guard are needed, and both orders yield the *same* document (no
+normal-form argument).  Not covered: both steps rebuild the same node (two insertions into one parent:
+`commute_needs_guard`), or one step's range crosses into the node the other one works in (open finding
+C17-parent-retyped). -/
 
-/-- **two replace steps with separated ranges, the left one inside a node the right one does not touch:
+/-- **two replace steps with separated ranges, one of them inside a node the other one does not touch:
     neither rebased step is dropped, both orders apply, and they give the same document** -/
 theorem commute_succeeds_replace (S : Schema) (d da db : Node) (f1 t1 f2 t2 : Nat) (s1 s2 : Slice)
-    (b1 b2 : Bool) (hn : fnorm d.kids = true) (hsn1 : fnorm s1.content = true) (hsep : t1 < f2)
+    (b1 b2 : Bool) (hn : fnorm d.kids = true) (hsn1 : fnorm s1.content = true)
+    (hsn2 : fnorm s2.content = true) (hsep : t1 < f2)
     (ha : S.apply (.replace f1 t1 s1 b1) d = .ok da) (hb : S.apply (.replace f2 t2 s2 b2) d = .ok db)
-    (hg : insideLeft d.kids f1 t1 (depthAt d.kids f1 - s1.openStart) f2 t2
-      (depthAt d.kids f2 - s2.openStart) = true) :
+    (hg : commuteGuard d.kids f1 t1 s1 f2 t2 s2 = true) :
     ∃ a' b' dab, (Step.replace f2 t2 s2 b2).map (Step.replace f1 t1 s1 b1).getMap = some b' ∧
       (Step.replace f1 t1 s1 b1).map (Step.replace f2 t2 s2 b2).getMap = some a' ∧
       S.apply b' da = .ok dab ∧ S.apply a' db = .ok dab := by
@@ -452,7 +457,12 @@ theorem commute_succeeds_replace (S : Schema) (d da db : Node) (f1 t1 f2 t2 : Na
   obtain ⟨h2, _, _⟩ := replaceKids_guards S ty K f2 t2 s2 Kb hr2
   obtain ⟨hlen1, hs1⟩ := Slice.toks_length_of_wf_ex s1 hwf1
   obtain ⟨r1, r2⟩ := rebase_separated_after f1 t1 f2 t2 s1 s2 b1 b2 h1 h2 hsep hs1
-  obtain ⟨Kab, c1, c2⟩ := replaceKids_commute_left S ty K Ka Kb f1 t1 f2 t2 s1 s2 hn hsn1 hsep hr1 hr2 hg
+  obtain ⟨Kab, c1, c2⟩ : ∃ Kab, replaceKids S ty Ka (f2 - (t1 - f1) + s1.toks.length)
+      (t2 - (t1 - f1) + s1.toks.length) s2 = .ok Kab ∧ replaceKids S ty Kb f1 t1 s1 = .ok Kab := by
+    simp only [commuteGuard, Bool.or_eq_true] at hg
+    rcases hg with hg | hg
+    · exact replaceKids_commute_left S ty K Ka Kb f1 t1 f2 t2 s1 s2 hn hsn1 hsep hr1 hr2 hg
+    · exact replaceKids_commute_right S ty K Ka Kb f1 t1 f2 t2 s1 s2 hn hsn1 hsn2 hsep hr1 hr2 hg
   have n1 : ((f2 : Int) + s1.size - (t1 - f1)).toNat = f2 - (t1 - f1) + s1.toks.length := by omega
   have n2 : ((t2 : Int) + s1.size - (t1 - f1)).toNat = t2 - (t1 - f1) + s1.toks.length := by omega
   refine ⟨_, _, Node.elem ty a m Kab, r1, r2, ?_, ?_⟩
@@ -499,8 +509,8 @@ example : ∃ dab, tinyS.apply (.replace 6 6 ⟨[.text [121] []], 0, 0⟩ false)
   obtain ⟨a', b', dab, hb', ha', h1, h2⟩ := commute_succeeds_replace tinyS c0 ca cb 2 2 5 5
     ⟨[.text [120] []], 0, 0⟩ ⟨[.text [121] []], 0, 0⟩ false false
     (by simp [c0, par, Node.kids, fnorm, fnormKids, Node.norm, chainOk, adjOk])
-    (by simp [fnorm, fnormKids, Node.norm, chainOk]) (by omega) stepA stepB
-    (by simp [c0, par, Node.kids, insideLeft, depthAt])
+    (by simp [fnorm, fnormKids, Node.norm, chainOk]) (by simp [fnorm, fnormKids, Node.norm, chainOk])
+    (by omega) stepA stepB (by simp [c0, par, Node.kids, commuteGuard, insideLeft, depthAt])
   have e1 : (Step.replace 5 5 ⟨[.text [121] []], 0, 0⟩ false).map
       (Step.replace 2 2 ⟨[.text [120] []], 0, 0⟩ false).getMap
       = some (.replace 6 6 ⟨[.text [121] []], 0, 0⟩ false) := by
@@ -516,6 +526,12 @@ example : ∃ dab, tinyS.apply (.replace 6 6 ⟨[.text [121] []], 0, 0⟩ false)
   simp only [Option.some.injEq] at hb' ha'
   subst hb'; subst ha'
   exact ⟨dab, h1, h2⟩
+
+/-- the other half of the guard: "insert a paragraph at 0" (doc level) against "type `y` at 5" (inside the
+    second paragraph) — the right step is the one inside a node the left one does not touch -/
+example : insideLeft c0.kids 0 0 (depthAt c0.kids 0 - 0) 5 5 (depthAt c0.kids 5 - 0) = false ∧
+    commuteGuard c0.kids 0 0 ⟨[par [120]], 0, 0⟩ 5 5 ⟨[.text [121] []], 0, 0⟩ = true := by
+  simp [c0, par, Node.kids, commuteGuard, insideLeft, insideRight, depthAt]
 end Example
 
 /-! The guard cannot be dropped: a parent with a bounded count.  `doc "para{1,3}"`, `doc(p("a"), p("b"))`:
@@ -554,7 +570,7 @@ theorem commute_needs_guard :
       = some (.replace 0 0 ⟨[q 120], 0, 0⟩ false) ∧
     cntS.apply (.replace 9 9 ⟨[q 121], 0, 0⟩ false) na = .error .failed ∧
     cntS.apply (.replace 0 0 ⟨[q 120], 0, 0⟩ false) nb = .error .failed ∧
-    insideLeft n0.kids 0 0 (depthAt n0.kids 0 - 0) 6 6 (depthAt n0.kids 6 - 0) = false := by
+    commuteGuard n0.kids 0 0 ⟨[q 120], 0, 0⟩ 6 6 ⟨[q 121], 0, 0⟩ = false := by
   have v3a : cntS.validContent 0 [q 120, q 97, q 98] = true := by decide
   have v3b : cntS.validContent 0 [q 97, q 98, q 121] = true := by decide
   have v4a : cntS.validContent 0 [q 120, q 97, q 98, q 121] = false := by decide
@@ -576,7 +592,7 @@ theorem commute_needs_guard :
   · simp [Schema.apply, Schema.fromReplace, Schema.replace, nb, q, replaceKids, inRange,
       Slice.wf, spineL, spineR, outer, atLevel, fcut, fappend, addNode, Except.map] at v4a ⊢
     simp [v4a]
-  · simp [n0, q, Node.kids, insideLeft]
+  · simp [n0, q, Node.kids, commuteGuard, insideLeft, insideRight]
 end NeedsGuard
 
 end PM.C17
